@@ -118,7 +118,7 @@ def stride_nway_specs(rnd):
         for r in list(parts):
             if parts[r] and not parts[r][0].startswith(("follow", "uniform_occ")):
                 parts[r] = ["nway_shape(%d)" % rnd.randint(1, 5)] + parts[r][1:]
-    if strat == "S7":
+    if strat == "S7" and info.get("follower") == "q":
         # any loop order the compiler accepts will do: the text is only compared with its tree
         dims = info["dims"][0]
         n = dims["nlev"]
